@@ -71,9 +71,9 @@ func vfRunScen(c vfScenCase) *vfScenOut {
 		panic(err)
 	}
 	defer os.RemoveAll(dir)
-	out := filepath.Join(dir, "out")
+	out := sc.outDir(dir)
 	away := filepath.Join(dir, "out-away")
-	os.Mkdir(out, 0755)
+	os.MkdirAll(out, 0755)
 	ws, we := vfWindowStrings(c.WindowKind)
 	conf := vfConf{DeviceName: "scen", Min: sc.Min, Max: sc.Max, Prev: sc.Prev, Cont: sc.Cont, MinDiskMB: 1, Throttle: c.Throttle, BucketS: c.BucketS, RefillS: c.RefillS,
 		WinStart: ws, WinEnd: we, Motion: vfSimpleMotion(sc.Trigger, sc.Edge), Lat: -43.5, Lon: 172.6}
@@ -106,6 +106,9 @@ func vfRunScen(c vfScenCase) *vfScenOut {
 	vfQuietLogs()
 	lb := &vfLogBuf{}
 	conn, parsed, err := vfStartConn(dir)
+	if conn != nil {
+		conn.fast = c.Sock.Fast
+	}
 	if err != nil {
 		o.err = "ParseConfig: " + err.Error()
 		return o
@@ -132,6 +135,7 @@ func vfRunScen(c vfScenCase) *vfScenOut {
 				return o
 			}
 			conn = vfStartConnWith(parsed)
+			conn.fast = c.Sock.Fast
 			if err := conn.Write(vfHeaderBytes(sc.Cam)); err != nil {
 				o.err = err.Error()
 				conn.Close()
@@ -531,6 +535,10 @@ func vfGenC17E2E(t *rapid.T) vfScenCase {
 	c := vfScenCase{Sock: vfGenSockBase(t, false, true)}
 	sc := &c.Sock
 	sc.Cont = true
+	if rapid.IntRange(0, 3).Draw(t, "tiny") == 0 {
+		// max-secs 0: every continuous file holds a single frame, files finish and start within a millisecond
+		sc.Min, sc.Max, sc.Prev, sc.Fast = 0, 0, 1, true
+	}
 	c.WindowKind = rapid.IntRange(0, 2).Draw(t, "window")
 	if rapid.Bool().Draw(t, "throttle") {
 		c.Throttle = true
